@@ -199,10 +199,15 @@ func checkCmd(args []string) int {
 			for i, w := range witnesses {
 				r := res[i]
 				okk := r.status == "CLEAN"
-				for _, o := range w.Obs {
-					if got, has := r.obs[o.Name]; !has || got != o.Val {
-						okk = false
-						r.detail += fmt.Sprintf(" obs %s: native=%q symbolic=%q", o.Name, got, o.Val)
+				if len(r.obs) != len(w.Obs) {
+					okk = false
+					r.detail += fmt.Sprintf(" %d native observations vs %d symbolic", len(r.obs), len(w.Obs))
+				} else {
+					for oi, o := range w.Obs {
+						if r.obs[oi][0] != o.Name || r.obs[oi][1] != o.Val {
+							okk = false
+							r.detail += fmt.Sprintf(" obs #%d %s: native=%s=%q symbolic=%q", oi, o.Name, r.obs[oi][0], r.obs[oi][1], o.Val)
+						}
 					}
 				}
 				if okk {
@@ -297,7 +302,7 @@ func checkCmd(args []string) int {
 type nativeResult struct {
 	status string
 	detail string
-	obs    map[string]string
+	obs    [][2]string
 }
 
 var resRe = regexp.MustCompile(`^REPLAY-RESULT (\d+) (\S+) ?(.*)$`)
@@ -308,7 +313,7 @@ func runNative(repo, harnessDir string, entries []replayEntry, file string) ([]n
 	os.MkdirAll(filepath.Dir(file), 0o755)
 	out := make([]nativeResult, len(entries))
 	for i := range out {
-		out[i] = nativeResult{status: "NOTRUN", obs: map[string]string{}}
+		out[i] = nativeResult{status: "NOTRUN"}
 	}
 	byPkg := map[string][]int{}
 	for i, e := range entries {
@@ -362,7 +367,7 @@ func runNative(repo, harnessDir string, entries []replayEntry, file string) ([]n
 			} else if m := obsRe.FindStringSubmatch(line); m != nil {
 				k, _ := strconv.Atoi(m[1])
 				if k < len(idx) {
-					out[idx[k]].obs[m[2]] = m[3]
+					out[idx[k]].obs = append(out[idx[k]].obs, [2]string{m[2], m[3]})
 				}
 			}
 		}
